@@ -83,6 +83,9 @@ type genEnv struct {
 	// creation budget for dynamic tables (every created table is one more Raft group in the server)
 	createBudget int
 	created      int
+	// catalogue support: force the violated rule / the branch an invalid operation is put into
+	forceKind   string // "" = draw
+	forceBranch int    // 0 = draw, 1 = success, 2 = failure
 }
 
 func newGenEnv(lane int, hasFoll bool, createBudget int) *genEnv {
@@ -303,7 +306,7 @@ func negLimit(r *rand.Rand) int64 {
 func revision(r *rand.Rand) int64 { return []int64{1, 1, 2, 1 << 40, 1<<63 - 1}[r.Intn(5)] }
 
 // insertOp puts op at a random position of the success or the failure branch.
-func insertOp(r *rand.Rand, m *pb.TxnRequest, op *pb.RequestOp) string {
+func (e *genEnv) insertOp(r *rand.Rand, m *pb.TxnRequest, op *pb.RequestOp) string {
 	ins := func(ops []*pb.RequestOp) ([]*pb.RequestOp, int) {
 		i := r.Intn(len(ops) + 1)
 		ops = append(ops, nil)
@@ -312,7 +315,11 @@ func insertOp(r *rand.Rand, m *pb.TxnRequest, op *pb.RequestOp) string {
 		return ops, i
 	}
 	var i int
-	if r.Intn(2) == 0 {
+	succ := r.Intn(2) == 0
+	if e.forceBranch != 0 {
+		succ = e.forceBranch == 1
+	}
+	if succ {
 		m.Success, i = ins(m.Success)
 		return fmt.Sprintf("success[%d]", i)
 	}
@@ -324,6 +331,16 @@ func insertOp(r *rand.Rand, m *pb.TxnRequest, op *pb.RequestOp) string {
 func (e *genEnv) typed(r *rand.Rand, n int, method string, follower bool) *request {
 	q := &request{N: n, Follower: follower, Method: method, Kind: "valid"}
 	invalid := r.Intn(100) < 58
+	pick := func(list []string) string {
+		k := list[r.Intn(len(list))]
+		if e.forceKind != "" {
+			k = e.forceKind
+		}
+		return k
+	}
+	if e.forceKind != "" {
+		invalid = e.forceKind != "valid"
+	}
 	switch method {
 	case mRange, mIterate:
 		m := e.validRange(r, follower)
@@ -331,7 +348,7 @@ func (e *genEnv) typed(r *rand.Rand, n int, method string, follower bool) *reque
 		if !invalid {
 			break
 		}
-		q.Kind = rangeViolations[r.Intn(len(rangeViolations))]
+		q.Kind = pick(rangeViolations)
 		switch q.Kind {
 		case "missing-table":
 			m.Table = nil
@@ -363,7 +380,7 @@ func (e *genEnv) typed(r *rand.Rand, n int, method string, follower bool) *reque
 		if !invalid {
 			break
 		}
-		q.Kind = putViolations[r.Intn(len(putViolations))]
+		q.Kind = pick(putViolations)
 		switch q.Kind {
 		case "missing-table":
 			m.Table = nil
@@ -382,7 +399,7 @@ func (e *genEnv) typed(r *rand.Rand, n int, method string, follower bool) *reque
 		if !invalid {
 			break
 		}
-		q.Kind = deleteViolations[r.Intn(len(deleteViolations))]
+		q.Kind = pick(deleteViolations)
 		switch q.Kind {
 		case "missing-table":
 			m.Table = nil
@@ -399,7 +416,7 @@ func (e *genEnv) typed(r *rand.Rand, n int, method string, follower bool) *reque
 		if !invalid {
 			break
 		}
-		q.Kind = txnViolations[r.Intn(len(txnViolations))]
+		q.Kind = pick(txnViolations)
 		q.Nested = strings.HasPrefix(q.Kind, "txn-")
 		switch q.Kind {
 		case "missing-table":
@@ -409,39 +426,39 @@ func (e *genEnv) typed(r *rand.Rand, n int, method string, follower bool) *reque
 		case "txn-nested-put-empty-key":
 			op := e.opPut(r)
 			op.GetRequestPut().Key = nil
-			q.Where = insertOp(r, m, op)
+			q.Where = e.insertOp(r, m, op)
 		case "txn-nested-put-oversize-key":
 			op := e.opPut(r)
 			op.GetRequestPut().Key = oversizeKey(r)
-			q.Where = insertOp(r, m, op)
+			q.Where = e.insertOp(r, m, op)
 		case "txn-nested-put-oversize-value":
 			op := e.opPut(r)
 			op.GetRequestPut().Value = oversizeValue(r, false)
-			q.Where = insertOp(r, m, op)
+			q.Where = e.insertOp(r, m, op)
 		case "txn-nested-range-empty-key":
 			op := e.opRange(r)
 			op.GetRequestRange().Key = nil
-			q.Where = insertOp(r, m, op)
+			q.Where = e.insertOp(r, m, op)
 		case "txn-nested-range-oversize-key":
 			op := e.opRange(r)
 			op.GetRequestRange().Key = oversizeKey(r)
-			q.Where = insertOp(r, m, op)
+			q.Where = e.insertOp(r, m, op)
 		case "txn-nested-range-negative-limit":
 			op := e.opRange(r)
 			op.GetRequestRange().Limit = negLimit(r)
-			q.Where = insertOp(r, m, op)
+			q.Where = e.insertOp(r, m, op)
 		case "txn-nested-range-keysonly-countonly":
 			op := e.opRange(r)
 			op.GetRequestRange().KeysOnly, op.GetRequestRange().CountOnly = true, true
-			q.Where = insertOp(r, m, op)
+			q.Where = e.insertOp(r, m, op)
 		case "txn-nested-delete-empty-key":
 			op := e.opDelete(r)
 			op.GetRequestDeleteRange().Key = nil
-			q.Where = insertOp(r, m, op)
+			q.Where = e.insertOp(r, m, op)
 		case "txn-nested-delete-oversize-key":
 			op := e.opDelete(r)
 			op.GetRequestDeleteRange().Key = oversizeKey(r)
-			q.Where = insertOp(r, m, op)
+			q.Where = e.insertOp(r, m, op)
 		case "txn-compare-empty-key":
 			c := e.compare(r)
 			c.Key = nil
@@ -453,7 +470,7 @@ func (e *genEnv) typed(r *rand.Rand, n int, method string, follower bool) *reque
 			m.Compare = append(m.Compare, c)
 			q.Where = fmt.Sprintf("compare[%d]", len(m.Compare)-1)
 		case "txn-empty-oneof":
-			q.Where = insertOp(r, m, &pb.RequestOp{})
+			q.Where = e.insertOp(r, m, &pb.RequestOp{})
 		}
 	}
 	if q.Kind != "valid" && !q.Nested {
